@@ -107,6 +107,12 @@ class C03System(BuilderSystem):
             for v in ladder(self.rebound[1], self.rebound[2]):
                 if v not in vals:
                     vals.append(v)
+        # values that are legal for a *sibling* quantity (a validator wired to the wrong property accepts them)
+        for other, rng in self.bounds0.items():
+            if other != name and other != "axes":
+                mid = (rng[0] + rng[1]) / 2
+                if mid not in vals:
+                    vals.append(mid)
         return vals
 
     def ops(self, st):
@@ -176,6 +182,15 @@ class C03System(BuilderSystem):
                             ops.append(["hook-move", [key, fresh, v]])
         if self.rebound and self.rebound[0] in st.bounds and st.bounds[self.rebound[0]] != (self.rebound[1], self.rebound[2]):
             ops.append(["set_bounds", list(self.rebound)])
+        # set_bounds calls that have to be rejected (empty range at a value of the ladder that lies outside the limits in force,
+        # reversed range): the limits accepted last stay in force (if an implementation accepts the call, the model follows it)
+        for name, (lo, hi) in st.bounds.items():
+            if name == "axes":
+                far = tuple(h + 1000.5 for h in hi)
+                ops.append(["set_bounds", [name, far, far]])
+            else:
+                ops.append(["set_bounds", [name, hi + 1000.5, hi + 1000.5]])
+                ops.append(["set_bounds", [name, hi + 1000.5, lo - 1000.5]])
         return ops
 
     # ---- what the call asks for --------------------------------------
@@ -292,7 +307,8 @@ class C03System(BuilderSystem):
         return (pt(g.position), str(g.distance_mode), tuple((rf(m.pos[a]) if m.known[a] else None) for a in ("X", "Y", "Z")),
                 m.relative, tuple(sorted((k, repr(v)) for k, v in st.bounds.items())), s.is_tool_active, s.tool_number,
                 rf(s.feed_rate), rf(s.tool_power), rf(s.target_bed_temperature), rf(s.target_hotend_temperature),
-                rf(s.target_chamber_temperature))
+                rf(s.target_chamber_temperature),
+                tuple(repr(s.get_bounds(n)) for n in sorted(st.bounds)))      # the limits the builder itself holds
 
     def outcome(self, st):
         return (tuple(st.last_lines), type(st.last_exc).__name__ if st.last_exc else None)
